@@ -256,6 +256,46 @@ static void gen_decode(long seed, int nrandom)
 					decode_case(m, n);
 				}
 	}
+	/* well-known RIFF chunk ids where the decoder expects "data" (and, for the headers that have one, "fact"), each followed
+	 * by a payload and a real data chunk: whatever is accepted must re-encode to the bytes that were consumed */
+	{
+		static const char *ids[] = { "LIST", "list", "cue ", "smpl", "bext", "JUNK", "junk", "PEAK", "id3 ", "fact", "data", "fmt ", "RIFF", "WAVE", "PAD ", "INFO" };
+		static const unsigned plens[] = { 0, 1, 4, 26, 27 };
+		for (int kind = 0; kind < 7; kind++)
+			for (unsigned i = 0; i < sizeof(ids) / sizeof(ids[0]); i++)
+				for (unsigned pl = 0; pl < 5; pl++) {
+					int n = base_header(kind, buf);
+					int has_fact = (kind == 2 || kind == 6);
+					for (int where = 0; where <= has_fact; where++) {
+						memset(m, 0, sizeof(m));
+						memcpy(m, buf, n);
+						int at = where ? n - 8 - 12 : n - 8;         /* the fact chunk sits 12 bytes before the data chunk */
+						memcpy(m + at, ids[i], 4);
+						if (!where) put32(m + at + 4, plens[pl]);
+						int tail = n;
+						for (unsigned k = 0; k < plens[pl]; k++) m[tail++] = 0x30 + k;
+						memcpy(m + tail, "data", 4); put32(m + tail + 4, 16); tail += 8;
+						for (int k = 0; k < 16; k++) m[tail++] = 0x80 + k;
+						put32(m + 4, tail - 8);
+						decode_case(m, tail); decode_case(m, n); decode_case(m, n + plens[pl] + 8); decode_case(m, n + plens[pl] + 7);
+					}
+				}
+	}
+	/* extreme values in the fields rf_wavheader_tostring prints (the longest text it can be asked for) */
+	{
+		static const unsigned fm[] = { 1, 3, 7, 0xfffe }, chn[] = { 1, 9999, 10000, 65535 }, ba[] = { 1, 2, 4, 0xffff }, bi[] = { 8, 16, 32 };
+		static const uint32_t rt[] = { 1, 999999999u, 1000000000u, 0x7fffffffu, 0x80000000u, 0xffffffffu }, ds[] = { 0, 0x7fffffffu, 0x80000000u, 0xffffffffu };
+		int n = base_header(0, buf);
+		for (unsigned a = 0; a < 4; a++) for (unsigned b = 0; b < 4; b++) for (unsigned c = 0; c < 6; c++)
+			for (unsigned d = 0; d < 4; d++) for (unsigned e = 0; e < 4; e++) for (unsigned f = 0; f < 3; f++) {
+				if ((a + b + c + d + e + f) % 3 == 1 && a != 2) continue;      /* thin out; keep every unknown-format combination */
+				memcpy(m, buf, n);
+				m[20] = fm[a] & 0xff; m[21] = fm[a] >> 8; m[22] = chn[b] & 0xff; m[23] = chn[b] >> 8;
+				put32(m + 24, rt[c]); m[32] = ba[d] & 0xff; m[33] = ba[d] >> 8; m[34] = bi[f]; m[35] = 0;
+				put32(m + 40, ds[e]);
+				decode_case(m, n);
+			}
+	}
 	for (int i = 0; i < nrandom; i++) {
 		int kind = drv_below(6), n = base_header(kind, buf);
 		int len = n;
